@@ -939,6 +939,30 @@ func constIndexSafe(p *core.Program, fn *ssa.Function, in ssa.Instruction, xs st
 		}
 		return true, "dominated by a length test of the same value"
 	}
+	// element 0 of a list kept in a field: on every path to the index that did not find the list
+	// non-empty, the field was assigned the result of an append of at least one element
+	if k == 0 {
+		cn := core.NewCanon(p)
+		grown := func(x ssa.Instruction) bool {
+			st, ok := x.(*ssa.Store)
+			if !ok || strings.TrimPrefix(cn.Of(st.Addr), "&") != xs {
+				return false
+			}
+			call, ok := core.StripConv(st.Val).(*ssa.Call)
+			if !ok {
+				return false
+			}
+			b, isB := call.Call.Value.(*ssa.Builtin)
+			if !isB || b.Name() != "append" || len(call.Call.Args) != 2 {
+				return false
+			}
+			el := cn.Of(call.Call.Args[1])
+			return strings.HasPrefix(el, "{") && el != "{}"
+		}
+		if okApp, _ := core.MustPassThrough(fn, in, grown, cut); okApp && core.InstrReachable(fn, cut, in) {
+			return true, "the list was assigned an append of at least one element on every path that did not find it non-empty"
+		}
+	}
 	return false, "no length test of " + shortVal(xs) + " guards this index"
 }
 
